@@ -202,6 +202,25 @@ theorem store_chain_refusals (cls : String) (t : Int) :
     runStore cls ["to_tuple"] t = none ∧ runStore cls ["to_cvi", "to_tuple"] t = none ∧ runStore cls [] t = none := by
   refine ⟨?_, ?_, ?_⟩ <;> simp [runStore, storeStep]
 
+open Model.BtElem in
+theorem load_store_all (ts : List Int) (h : ∀ t ∈ ts, InI128 t) : (ts.map arrStore).mapM arrLoad = .ok ts := by
+  induction ts with
+  | nil => rfl
+  | cons t ts ih =>
+    have h1 := record_roundtrip t (h t (by simp))
+    have h2 := ih (fun x hx => h x (by simp [hx]))
+    simp only [List.map_cons, List.mapM_cons, h1, h2, bind, Except.bind, pure, Except.pure]
+
+open Model.BtElem in
+/-- **Pickling / deep-copying a DateTimeArray or TimeDeltaArray of in-range elements, as `__reduce__` is written, reproduces
+    every 16-byte record** (and `__eq__`, which compares the records, calls the copy equal). -/
+theorem gen_array_pickle_roundtrip (ts : List Int) (h : ∀ t ∈ ts, InI128 t) :
+    (∀ c ∈ Gen.BtElemSites.pickle_eq, c.2 = ("ctor(list(iter(self)))", "records"))
+    ∧ arrPickle (ts.map arrStore) = .ok (ts.map arrStore) := by
+  refine ⟨by decide +kernel, ?_⟩
+  simp only [arrPickle, load_store_all ts h]
+  rfl
+
 -- non-vacuity: the hypotheses are met by non-trivial values
 example : InI128 (-(2:Int)^127) ∧ InI128 ((2:Int)^127 - 1) ∧ InI64 (-5) ∧ InU64 ((2:Int)^64 - 1) := by
   unfold InI128 InI64 InU64; omega
